@@ -50,6 +50,14 @@ C08OK(rec) ==
 C15OK(rec) == rec.op = "clear" => (C08OK(rec) /\ ToSt(rec.post) = FreshM /\ rec.post.nlive = 0)
 \* C16: a failing node allocation makes insert return -1, the map holds exactly what it held, nothing leaks
 C16OK(rec) == (rec.op = "insert" /\ rec.fail) => C08OK(rec)
+ModelOps(rec) ==
+    {[op |-> "insert", k |-> k, ko |-> ko, vo |-> vo, fail |-> f, noit |-> FALSE] : k \in Nodes, ko \in 1..2, vo \in 1..2, f \in BOOLEAN}
+    \cup {[op |-> "erase", k |-> k, noit |-> FALSE] : k \in Nodes} \cup {[op |-> "clear", cb |-> TRUE]}
+\* In a closure the records of one state are contiguous (field g on the first of them = how many).  Every transition
+\* the L0 machine can take from that state (ModelOps) must be among the operations the driver applied to the real
+\* code there (the driver applies read-only probes on top).  Recs[1] is the trace header (the scope).
+Applied(k, o) == \E j \in k..(k + Recs[k].g - 1) : Recs[j].op = o.op /\ \A f \in DOMAIN o : Recs[j][f] = o[f]
+OpsOK(k) == LET rec == Recs[k] IN ~Sane(rec.pre) \/ \A o \in ModelOps(rec) : Applied(k, o)
 VARIABLE i
 Judge(rec) ==
     /\ (IF Level # 2 \/ C15OK(rec) THEN TRUE ELSE PrintT(<<"L2FAIL", "C15", rec.id>>))
@@ -58,6 +66,7 @@ Judge(rec) ==
     /\ (IF Level # 1 \/ StepOK(rec) THEN TRUE ELSE PrintT(<<"L1DRIFT", "map", rec.id>>))
 TInit == i = 1
 TNext == i < Len(Recs) /\ i' = i + 1 /\ Judge(Recs[i + 1])
+         /\ (IF Level # 1 \/ Recs[i + 1].g = 0 \/ OpsOK(i + 1) THEN TRUE ELSE PrintT(<<"OPSDIFF", "map", Recs[i + 1].id>>))
 TSpec == TInit /\ [][TNext]_i
 Done == i = Len(Recs) => PrintT(<<"TRACE-END", i>>)
 =============================================================================
